@@ -10,6 +10,8 @@ open ReplayModel
 
 structure State where
   types : Std.HashMap String Ty := {}
+  defs : Std.HashMap String Defs := {}
+  masks : Masks := {}
 
 def getTy (st : State) (j : Json) : Except String Ty := do
   match j.getObjValAs? String "tyref" with
@@ -23,6 +25,131 @@ def opTyDef (st : State) (j : Json) : Except String (State × Json) := do
   let name ← j.getObjValAs? String "name"
   let t ← tyOfJson (← j.getObjVal? "ty")
   pure ({ st with types := st.types.insert name t }, Json.mkObj [("ok", true)])
+
+def masksOfJson (j : Json) : Except String Masks := do
+  pure { client := ← getNat j "client", internal := ← getNat j "internal",
+         cell := ← getNat j "cell", base := ← getNat j "base" }
+
+/-- load a definition set from XML trees, register it under `id`, return the views -/
+def opDefsLoad (st : State) (j : Json) : Except String (State × Json) := do
+  let id ← j.getObjValAs? String "id"
+  let fuel ← getNat j "fuel"
+  let alias ← xmlOfJson (← j.getObjVal? "alias")
+  let extJ ← j.getObjVal? "alias_ext"
+  let ext ← if extJ.isNull then pure none else do pure (some (← xmlOfJson extJ))
+  let ents ← xmlOfJson (← j.getObjVal? "entities")
+  let defs ← xmlMapOfJson (← j.getObjVal? "defs")
+  let ifaces ← xmlMapOfJson (← j.getObjVal? "interfaces")
+  let masks ← match j.getObjVal? "masks" with
+    | .ok m => masksOfJson m
+    | .error _ => pure st.masks
+  match loadDefs fuel alias ext ents defs ifaces with
+  | .error e => pure (st, errJson e)
+  | .ok d =>
+    let brief := (j.getObjValAs? Bool "brief").toOption.getD false
+    let out := if brief then Json.mkObj [("ok", d.entities.length)]
+      else Json.mkObj [("ok", Json.arr (d.entities.map fun e => viewToJson (e.view masks)).toArray)]
+    pure ({ st with defs := st.defs.insert id d, masks := masks }, out)
+
+def subsOfJson (j : Json) : Except String (List (String × List Sub)) := do
+  let a ← j.getArr?
+  let mut table : List (String × List Sub) := []
+  for x in a do
+    let q ← x.getArr?
+    if h : q.size = 3 then
+      let key ← q[0].getStr?
+      let tag ← natOfJson q[1]
+      let raises ← q[2].getBool?
+      table := subscribe table key { tag := tag, raises := raises }
+    else throw "bad subscription"
+  pure table
+
+def dialectOf (s : String) : Except String Dialect :=
+  match s with
+  | "wowsOld" => pure wowsOld
+  | "wowsNew" => pure wowsNew
+  | "wot" => pure wotDialect
+  | "wowp" => pure wowpDialect
+  | _ => throw s!"unknown dialect {s}"
+
+def kvJson (kvs : List (String × Val)) : Json :=
+  let sorted := kvs.toArray.qsort (fun a b => a.1 < b.1)
+  Json.arr (sorted.map fun (k, v) => Json.arr #[k, valToJson v])
+
+def entityJson (e : Entity) : Json :=
+  Json.mkObj [("id", Json.num (JsonNumber.fromInt e.id)), ("type", e.view.name),
+    ("client", kvJson e.client), ("cell", kvJson e.cell), ("base", kvJson e.base),
+    ("volatile", kvJson e.volatile)]
+
+def worldJson (w : World) : Json :=
+  Json.mkObj [("entities", Json.arr (w.entities.map fun (_, e) => entityJson e).toArray),
+    ("playerId", match w.playerId with | some i => Json.num (JsonNumber.fromInt i) | none => Json.null),
+    ("map", match w.map with | some m => (toHex m : Json) | none => Json.null)]
+
+def logJson : LogEntry → Json
+  | .method key sub ent args kwargs => Json.arr #["M", key, sub, Json.num (JsonNumber.fromInt ent),
+      Json.arr (args.map valToJson).toArray, kvJson kwargs]
+  | .prop key sub ent v => Json.arr #["P", key, sub, Json.num (JsonNumber.fromInt ent), valToJson v]
+  | .nested key sub ent path obj => Json.arr #["N", key, sub, Json.num (JsonNumber.fromInt ent), path, valToJson obj]
+
+def jsonOkImpl (b : Bytes) : Bool :=
+  match String.fromUTF8? (ByteArray.mk b.toArray) with
+  | some s => (Json.parse s).isOk
+  | none => false
+
+def endJson (e : PlayEnd) : List (String × Json) :=
+  match e with
+  | .finished => [("end", "finished")]
+  | .headerShort => [("end", "headerShort")]
+  | .raised i er => [("end", "raised"), ("index", i), ("err", er.name)]
+
+def opPlay (st : State) (j : Json) (streamOverride : Option Bytes) : Except String Json := do
+  let id ← j.getObjValAs? String "defs"
+  let defs ← match st.defs.get? id with
+    | some d => pure d
+    | none => throw s!"unknown defs {id}"
+  let dialect ← dialectOf (← j.getObjValAs? String "dialect")
+  let strict ← j.getObjValAs? Bool "strict"
+  let subs ← j.getObjVal? "subs"
+  let reg : Registry := {
+    methods := ← subsOfJson (← subs.getObjVal? "methods"),
+    props := ← subsOfJson (← subs.getObjVal? "props"),
+    nested := ← subsOfJson (← subs.getObjVal? "nested") }
+  let stream ← match streamOverride with
+    | some b => pure b
+    | none => getHex j "stream"
+  let cfg : Config := { defs := defs, masks := st.masks, dialect := dialect, reg := reg }
+  let every := (j.getObjValAs? Bool "every").toOption.getD false
+  if every then
+    -- dump the world after every packet (short histories only)
+    let (ps, fe) := parsePackets stream
+    let rec go (w : World) (i : Nat) (ps : List NetPacket) (acc : Array Json) : Array Json × World × Option (Nat × Err) :=
+      match ps with
+      | [] => (acc, w, none)
+      | np :: rest =>
+        let r := stepNet jsonOkImpl cfg w np
+        let entry := Json.mkObj [("world", worldJson r.world),
+          ("err", match r.err with | some e => (e.name : Json) | none => Json.null),
+          ("log", Json.arr ((r.world.log.drop w.log.length).map logJson).toArray)]
+        match r.err with
+        | some e => if strict then (acc.push entry, r.world, some (i, e)) else go r.world (i + 1) rest (acc.push entry)
+        | none => go r.world (i + 1) rest (acc.push entry)
+    let (steps, w, raised) := go {} 0 ps #[]
+    let ending : PlayEnd := match raised with
+      | some (i, e) => .raised i e
+      | none => match fe with | .exhausted => .finished | .headerShort => .headerShort
+    pure (Json.mkObj (endJson ending ++ [("steps", Json.arr steps), ("world", worldJson w), ("packets", ps.length)]))
+  else
+    let r := play jsonOkImpl cfg strict {} stream
+    pure (Json.mkObj (endJson r.ending ++ [("world", worldJson r.world),
+      ("log", Json.arr (r.world.log.map logJson).toArray),
+      ("failed", Json.arr (r.failed.map fun (i, e) => Json.arr #[i, e.name]).toArray)]))
+
+def opFrameParse (j : Json) : Except String Json := do
+  let stream ← getHex j "stream"
+  let (ps, fe) := parsePackets stream
+  pure (Json.mkObj [("packets", Json.arr (ps.map fun p => Json.arr #[p.type, p.time, toHex p.payload, p.size]).toArray),
+    ("end", match fe with | .exhausted => "exhausted" | .headerShort => "headerShort")])
 
 def opCodecDecode (st : State) (j : Json) : Except String Json := do
   let t ← getTy st j
@@ -107,6 +234,9 @@ def pureOp (st : State) (r : Except String Json) : Except String (State × Json)
 def dispatch (st : State) (op : String) (j : Json) : Except String (State × Json) :=
   match op with
   | "ty.def" => opTyDef st j
+  | "defs.load" => opDefsLoad st j
+  | "play" => pureOp st (opPlay st j none)
+  | "frame.parse" => pureOp st (opFrameParse j)
   | "codec.decode" => pureOp st (opCodecDecode st j)
   | "codec.decodeSeq" => pureOp st (opCodecDecodeSeq st j)
   | "codec.encode" => pureOp st (opCodecEncode st j)
